@@ -981,3 +981,30 @@ def r15(rr, repo):
               witness=U(tr[0][0].test)[:100] if tr else f'no `if not data.endswith(delimiter)` after {U(c)[:40]} in {scope.name}', key=f'whole-records-only|{scope.name}')
         if tr:
             rr.ob('... for the delimited modes only (binary data is handed on as it is)', tr[0][2], mod, tr[0][0], witness=U(tr[0][0].test)[:100], key=f'whole-records-not-bin|{scope.name}')
+
+
+@rule('C13.R17', "the budget the files are pruned to is the one that was configured: `total_size` (and `file_size`, which decides when a file is full) reach the pruning / roll-over comparisons as given - "
+                 "raised to 'at least one file size' the budget lets an older, not yet full file stay next to the newest one although the two together exceed what was asked for (a writer that was "
+                 "closed and reopened before its file was full)")
+def r17(rr, repo):
+    mod, cls = repo.find(f'{RL}::RollLog')
+    _, init = repo.find(f'{RL}::RollLog.__init__')
+    params = q.func_params(init)
+    for attr in ('total_size', 'file_size'):
+        st = [s for s, t in q.stores_to_attr(cls, attr)]
+        rr.floor(f'stores to self.{attr}', len(st), 1, mod, cls)
+        for s in st:
+            v = s.value if isinstance(s, (ast.Assign, ast.AnnAssign)) else None
+            if v is None:
+                rr.unresolved(f'how self.{attr} is changed was not recognised', mod, s, witness=U(s)[:80], key=f'budget-as-configured|{attr}')
+                continue
+            text = U(v)
+            same = text == attr and attr in params
+            coerced = isinstance(v, ast.Call) and U(v.func) in ('int', 'float') and len(v.args) == 1 and U(v.args[0]) == attr
+            combined = any(isinstance(c, ast.Call) and U(c.func) == 'max' for c in ast.walk(v)) or (isinstance(v, ast.BinOp) and isinstance(v.op, (ast.Add, ast.Mult)))       # the ways to RAISE it
+            if same or coerced:
+                rr.ob(f'self.{attr} is the configured value', True, mod, s, witness=U(s)[:80], key=f'budget-as-configured|{attr}')
+            elif combined:
+                rr.ob(f'self.{attr} is the configured value', False, mod, s, witness=f'{U(s)[:100]}: the value asked for is combined with something else', key=f'budget-as-configured|{attr}')
+            else:
+                rr.unresolved(f'how self.{attr} gets its value was not recognised', mod, s, witness=U(s)[:80], key=f'budget-as-configured|{attr}')
